@@ -11,9 +11,9 @@ from . import prog_engine as pe
 from .c09 import finish
 
 KINDS = {
-    'C01': ['flat', 'combo', 'multi', 'nested', 'tworoots', 'payload', 'targs:nested_arg', 'targs:generic', 'combo'],
-    'C02': ['flat', 'multi', 'nested', 'nested', 'unsized', 'split', 'nestedx', 'tworoots', 'payload', 'arity', 'targs:nested_arg', 'combo', 'combo', 'targs:unsized_where', 'fnnest', 'targs:reflexive_mix', 'targs:repeated_arg'],
-    'C04': ['overlap', 'overlap', 'flat', 'nested', 'overlap', 'nestedx', 'targs:nested_arg', 'arity', 'tworoots_overlap', 'fnnest', 'shiftoverlap'],
+    'C01': ['flat', 'combo', 'multi', 'nested', 'tworoots', 'payload', 'targs:nested_arg', 'targs:generic', 'combo', 'twokeys'],
+    'C02': ['flat', 'multi', 'nested', 'nested', 'unsized', 'split', 'nestedx', 'tworoots', 'payload', 'arity', 'targs:nested_arg', 'combo', 'combo', 'targs:unsized_where', 'fnnest', 'targs:reflexive_mix', 'targs:repeated_arg', 'twokeys'],
+    'C04': ['overlap', 'overlap', 'flat', 'nested', 'overlap', 'nestedx', 'targs:nested_arg', 'arity', 'tworoots_overlap', 'fnnest', 'shiftoverlap', 'targs:unsized_where_overlap'],
 }
 PREFIX = {'C01': ['C01_'], 'C02': ['C02_'], 'C04': ['C04_']}
 
@@ -42,10 +42,25 @@ def run_prop(prop, tier, seed, replay=None, make_cases=None):
     stats = dict(cases=0, programs=0, shadow_invalid=0, macro_rejected=0, overlap_witnessed=0, probes=0,
                  implemented=0, values_checked=0, oracle_inconclusive=0, spec_checked=0, by_kind={})
     # corpus: witness programs of fixed findings -- must not compile (C04) / must compile
+    known_lines = set()
+    known = [k for k in cm.load_known() if k['property'] == prop and k['status'] == 'known']
     for name, src in corpus_cases(prop):
         r = rc.compile_run(src)
         stats['programs'] += 1
         expect_fail = prop == 'C04'
+        if name.startswith('known_'):
+            # the witness program of a finding that is recorded, not repaired (known_findings.json
+            # names it by class; the file is known_<class>_*.rs): reported as KNOWN-FINDING while it
+            # still fails, silently gone once the defect is repaired, a violation when unlisted
+            cls = name.split('_')[1].upper()
+            k = next((k for k in known if k['class'].upper() == cls), None)
+            still = r['ok'] if expect_fail else not (r['ok'] and r.get('run_ok'))
+            if still and k:
+                known_lines.add('KNOWN-FINDING: property=%s %s: %s' % (prop, k['class'], k['what']))
+                stats['known_' + cls.lower()] = 1
+                continue
+            if not still:
+                continue
         if not expect_fail and not (r['ok'] and r.get('run_ok')):
             violations.append(dict(kind='property', request='corpus/%s/%s' % (prop, name), program=src, errors=r['errors'][:4],
                                    oracle='a corpus program of a fixed finding no longer compiles and runs: %s' % r['errors'][:2]))
@@ -103,7 +118,7 @@ def run_prop(prop, tier, seed, replay=None, make_cases=None):
             stats['macro_rejected'] += 1
             if prop == 'C04' and witness:
                 nontrivial.add(c.invocation())
-            by_construction = c.kind in ('flat', 'multi', 'payload', 'unsized', 'split', 'arity', 'tworoots', 'ltbound') or c.kind.startswith('targs:')
+            by_construction = c.kind in ('flat', 'multi', 'payload', 'unsized', 'split', 'arity', 'tworoots', 'ltbound', 'twokeys') or c.kind.startswith('targs:')
             if (prop in ('C15', 'C16') or c.kind == 'combo' or (prop in ('C01', 'C02') and by_construction)) and not witness:
                 # one family per instantiation, pairwise distinguished on a shared key: must be accepted
                 violations.append(dict(case_dump(c), kind='property', request=c.invocation(), errors=o['macro_errors'][:4],
@@ -183,6 +198,6 @@ def run_prop(prop, tier, seed, replay=None, make_cases=None):
         raise cm.HarnessError('the Coq model of trait resolution (RustSem.applicable) disagrees with rustc on %d of %d cases'
                               % (stats['oracle_inconclusive'], stats['spec_checked']))
     samples = [dict(kind=c.kind, invocation=c.invocation()[:600], probes=c.probes[:4]) for c in cases[:3]]
-    return finish(prop, tier, seed, gate, cases, stats, nontrivial, violations, set(),
+    return finish(prop, tier, seed, gate, cases, stats, nontrivial, violations, known_lines,
                   rule='generated invocations (kinds %s: header templates x key choice x bound placement x parameter spelling/order x extra bounds) + random worlds of dispatch-trait impls + probes = ground instances of every header and non-instances; each case = shadow-trait program + macro program (+ item-value program); non-trivial = distinct invocation that compiled with at least one implemented probe (C01/C02) or had an overlap witness (C04)' % KINDS[prop],
                   samples=samples, extra=dict(programs=stats['programs']))
